@@ -27,6 +27,8 @@ const modPath = "github.com/textwire/textwire/v2"
 // Model is the type-checked, SSA-lowered program plus the facts extracted
 // from it. It is rebuilt from /repo's working tree on every run.
 type Model struct {
+	lenSums     map[*ssa.Function]*lenSum
+	lenSumBusy  map[*ssa.Function]bool
 	globalTabs  map[string]map[string]any
 	expectLikes map[*ssa.Function]*expectLike
 	Repo        string
